@@ -189,6 +189,9 @@ impl St {
                     return Some("more_than_3_relations".into());
                 }
             }
+            Stmt::CreateTable { .. } if has("create_table_inside_session") && k.is_some() && !matches!(exp, Expect::Fail(_)) => {
+                return Some("create_table_inside_session".into());
+            }
             Stmt::CreateTable { pk, uniques, .. } => {
                 let n = 1 + uniques.len() as u32 + pk.is_some() as u32;
                 if has("more_than_3_relations") && !matches!(exp, Expect::Fail(_)) && self.relations + n > 3 {
